@@ -172,20 +172,25 @@ package remote
 //@ ghost var gConnOk int
 // gMXLast: the MX level established after the last accepted CheckMX (the larger of what the policy was shown and what it returned).
 //@ ghost var gMXLast module.MXLevel
+// gTLSLast: the TLS level established so far for the connection being opened (what connect() reported, then the larger
+// of what each accepted CheckConn was shown and what it returned).
+//@ ghost var gTLSLast module.TLSLevel
 //@ extern func (module.DeliveryMXAuthPolicy).CheckMX(p module.DeliveryMXAuthPolicy, ctx context.Context, mxLevel module.MXLevel, domain string, mx string, dnssec bool) (lvl module.MXLevel, err error)
 //@   modifies gMXOk, gMXLast
 //@   ensures gMXOk == old(gMXOk) + (err == nil ? 1 : 0)
 //@   ensures err == nil ==> gMXLast == (lvl > mxLevel ? lvl : mxLevel)
 //@ extern func (module.DeliveryMXAuthPolicy).CheckConn(p module.DeliveryMXAuthPolicy, ctx context.Context, mxLevel module.MXLevel, tlsLevel module.TLSLevel, domain string, mx string, tlsState tls.ConnectionState) (lvl module.TLSLevel, err error)
-//@   modifies gConnOk
+//@   modifies gConnOk, gTLSLast
 //@   ensures gConnOk == old(gConnOk) + (err == nil ? 1 : 0)
+//@   ensures err == nil ==> gTLSLast == (lvl > tlsLevel ? lvl : tlsLevel)
 //@ extern func (module.DeliveryMXAuthPolicy).PrepareConn(p module.DeliveryMXAuthPolicy, ctx context.Context, mx string)
 //@ extern func (module.DeliveryMXAuthPolicy).PrepareDomain(p module.DeliveryMXAuthPolicy, ctx context.Context, domain string)
 // connect (STARTTLS with fall-back) is assumed at its call site for its frame only: it works on the smtpconn.C of the
 // connection (and the go-smtp client it creates); which TLS level it reports for which handshake is NOT decided here.
 //@ extern func (*remoteDelivery).attemptMX#connect$call(rd *remoteDelivery, ctx context.Context, c mxConn, host string, tlsCfg *tls.Config) (tlsLevel module.TLSLevel, tlsErr error, err error)
 //@   requires tlsCfg == rd.rt.tlsConfig
-//@   modifies *conn.C
+//@   modifies *conn.C, gTLSLast
+//@   ensures err == nil ==> gTLSLast == tlsLevel
 //@   ensures err == nil ==> conn.C.cl != nil && fresh(conn.C.cl) && !conn.C.sockClosed
 //@   ensures err != nil ==> conn.C.cl == nil || conn.C.sockClosed
 // attemptMX: a candidate MX is used only when every policy of the delivery accepted the MX (in policy order, each
@@ -194,21 +199,21 @@ package remote
 //@ import prometheus "github.com/prometheus/client_golang/prometheus"
 //@ func (*remoteDelivery).attemptMX
 //@   prop C05
-//@   modifies gMXOk, gMXLast, gConnOk, conn.mxLevel, conn.tlsLevel, *conn.C, conn.vetted, prometheus.CounterVec.MetricVec
+//@   modifies gMXOk, gMXLast, gConnOk, gTLSLast, conn.mxLevel, conn.tlsLevel, *conn.C, conn.vetted, prometheus.CounterVec.MetricVec
 //@   ensures result == nil ==> conn.C.cl != nil && !conn.C.sockClosed
 //@   ensures result != nil ==> conn.C.cl == nil || conn.C.sockClosed || (conn.C.cl == old(conn.C.cl) && conn.C.sockClosed == old(conn.C.sockClosed) && conn.vetted == old(conn.vetted))
 //@   requires rd != nil && rd.rt != nil && conn != nil && conn.C != nil && record != nil
 //@   ensures result == nil ==> gMXOk == old(gMXOk) + old(len(rd.policies)) && gConnOk == old(gConnOk) + old(len(rd.policies))
 //@   trusted-ensures result == nil ==> conn.vetted == old(len(rd.policies))
-//@   assert-call (module.DeliveryMXAuthPolicy).CheckMX : $p == rd.policies[rangeindex + 1] && $mxLevel == mxLevel && $domain == conn.domain && $mx == record.Host && $dnssec == conn.dnssecOk
+//@   assert-call (module.DeliveryMXAuthPolicy).CheckMX : $p == rd.policies[rangeindex + 1] && $domain == conn.domain && $mx == record.Host && $dnssec == conn.dnssecOk
 // ... the first policy sees no established MX level (levels do not carry over from an earlier MX candidate tried on
 // the same connection object), and the first CheckConn sees the TLS level connect() reported.
 //@   assert-call (module.DeliveryMXAuthPolicy).CheckMX : (rangeindex + 1 == 0 ==> $mxLevel == module.MXNone) && (rangeindex + 1 > 0 ==> $mxLevel == gMXLast)
 //@   assert-call (module.DeliveryMXAuthPolicy).CheckConn : $mxLevel == (len(rd.policies) == 0 ? module.MXNone : gMXLast)
-//@   ensures result == nil ==> conn.mxLevel == (old(len(rd.policies)) == 0 ? module.MXNone : gMXLast)
-//@   assert-call (module.DeliveryMXAuthPolicy).CheckConn : $p == rd.policies[rangeindex + 1] && $mxLevel == mxLevel && $tlsLevel == tlsLevel && $domain == conn.domain && $mx == record.Host
+//@   ensures result == nil ==> conn.mxLevel == (old(len(rd.policies)) == 0 ? module.MXNone : gMXLast) && conn.tlsLevel == gTLSLast
+//@   assert-call (module.DeliveryMXAuthPolicy).CheckConn : $p == rd.policies[rangeindex + 1] && $tlsLevel == gTLSLast && $domain == conn.domain && $mx == record.Host
 //@   loop 0 invariant (rangeindex + 1 == 0 ==> mxLevel == module.MXNone) && (rangeindex + 1 > 0 ==> mxLevel == gMXLast) && gMXOk == old(gMXOk) + rangeindex + 1 && gConnOk == old(gConnOk) && rd.policies == old(rd.policies) && conn.domain == old(conn.domain) && conn.dnssecOk == old(conn.dnssecOk) && record.Host == old(record.Host)
-//@   loop 1 invariant mxLevel == (len(rd.policies) == 0 ? module.MXNone : gMXLast) && gMXOk == old(gMXOk) + len(rd.policies) && gConnOk == old(gConnOk) + rangeindex + 1 && rd.policies == old(rd.policies) && len(rd.policies) == old(len(rd.policies)) && conn.domain == old(conn.domain) && record.Host == old(record.Host)
+//@   loop 1 invariant mxLevel == (len(rd.policies) == 0 ? module.MXNone : gMXLast) && tlsLevel == gTLSLast && gMXOk == old(gMXOk) + len(rd.policies) && gConnOk == old(gConnOk) + rangeindex + 1 && rd.policies == old(rd.policies) && len(rd.policies) == old(len(rd.policies)) && conn.domain == old(conn.domain) && record.Host == old(record.Host)
 //@ func (*Target).Name
 //@   prop C05
 //@ func (*mxConn).Close
